@@ -43,7 +43,7 @@ structure NodeTok where
 
 def parseNode (t : String) : Option NodeTok :=
   match t.splitOn ":" with
-  | ["from"] | ["where"] => some ⟨.pass, .plain⟩
+  | ["from"] | ["where"] | ["hout"] => some ⟨.pass, .plain⟩
   | ["post"] => some ⟨.post, .syncOutput⟩
   | ["alert"] => some ⟨.alert handlerQueue, .alertOutput⟩
   | ["udf"] => some ⟨.udf, .udf⟩
